@@ -413,9 +413,11 @@ pub fn alphabet_sources() -> Sources {
     };
     let f1 = FeatSpec {
         bg: vec![StepKind::Matched],
-        scenarios: vec![s(&[]), s(&["allow.skipped"])],
+        // look-alike spellings are ordinary tags: only `@allow.skipped` itself exempts
+        tags: vec!["Allow.Skipped".into()],
+        scenarios: vec![s(&["allow_skipped", "allow.skipped2"]), s(&["allow.skipped"])],
         rules: vec![
-            RuleSpec { tags: vec![], bg: vec![], scenarios: vec![s(&[])] },
+            RuleSpec { tags: vec!["allow".into(), "skipped".into()], bg: vec![], scenarios: vec![s(&["allowXskipped"])] },
             RuleSpec { tags: vec!["allow.skipped".into()], bg: vec![], scenarios: vec![s(&[])] },
         ],
         ..Default::default()
